@@ -136,6 +136,15 @@ CLAIMED = {
         "every architecture of generated source graphs and generated mappings, incl. malformed ones and non-final sources.",
    note=BASE + "F10 (None key crash) fixed by 8abed32. Known finding K27.",
    technique="Coq theorems about an extracted Gallina model + differential correspondence with the implementation", design="§6 C20"),
+ 'C19': dict(
+   text="Theorems about the labelled transition system of run_timeout, for every schedule of worker ticks and expiry: a returned "
+        "call carries the function's own result (value or exception) iff the worker completed before the expiry and TimeoutError "
+        "otherwise; on return the worker is finished or dead, also when the function swallows the injected exception once; a "
+        "returned call is final; the outcomes consistent with measured timing are the set `allowed`. Real run_timeout calls with "
+        "sleeping, busy, raising, swallowing, natively blocking, nested and back-to-back programs are compared with `allowed`, "
+        "plus: nothing still running, no foreign exception in the caller, later calls unaffected.",
+   note=BASE + "Partial: GIL scheduling, async-exception delivery latency and native blocking are runtime behaviour outside the LTS; timing is compared with a jitter tolerance and re-tried twice.",
+   technique="Coq theorems about an extracted Gallina model + differential correspondence with the implementation", design="§6 C19"),
 }
 NA_REASON = "machinery under construction in this round; not yet claimed"
 
